@@ -294,6 +294,12 @@ def gen(tier, seed):
         if m is not None:
             mods.append(m)
             n += 1
+    for k, shape in enumerate(S.ignore_run_shapes('p', 'm')):
+        ranks = [[None] * len(fl) for _, fl in shape[1]]
+        m = emit(f'm{n:04d}', f'{S.shape_id(shape)}/ranks=default/{MODES[k % 4]}/runs of ignored fields', shape, ranks, MODES[k % 4])
+        if m is not None:
+            mods.append(m)
+            n += 1
     # wide shapes (13 fields: positions >= 10 sort before 2 as strings), declared order and reversed ranks
     for k, (vk, r) in enumerate([('tuple', None), ('named', None), ('tuple', 'rev'), ('evariant', None)]):
         fl = ['p'] * S.WIDE
